@@ -17,20 +17,26 @@
    - bits.LeadingZeros64 x = 64 for x = 0 and 63 - floor(log2 x) otherwise.
 
    The second half are the "no overflow in range" lemmas used by GenLeafProofs.v. *)
-From Coq Require Import ZArith Lia Bool.
+From Coq Require Import ZArith Lia Bool List.
 From Coq Require Import ZifyBool.
 Open Scope Z_scope.
 
 (* ------------------------------------------------------------------ outcome of a call *)
 
 (* Ret a: the function returned a (results, then the assigned receiver fields).
-   Panic s: a Go panic (explicit panic(...), negative shift count, division by zero); s holds the
-   values of the assigned receiver fields at that moment (tt if the function assigns none). *)
+   Panic s: a Go panic (explicit panic(...), negative shift count, division by zero, slice index
+   out of range); s holds the values of the assigned receiver fields / @out locations at that
+   moment (tt if the function assigns none).
+   Diverge: the fuel of a translated loop ran out.  Never a normal-looking value; the translator
+   only emits loops whose fuel exceeds the number of iterations, and the equivalence theorems
+   prove (not assume) that Diverge does not occur. *)
 Inductive outcome (A S : Type) : Type :=
 | Ret (a : A)
-| Panic (s : S).
+| Panic (s : S)
+| Diverge.
 Arguments Ret {A S} a.
 Arguments Panic {A S} s.
+Arguments Diverge {A S}.
 
 (* ------------------------------------------------------------------ wrap-around *)
 
@@ -98,6 +104,37 @@ Definition tzcnt8 := go_tz 8.
 Definition tzcnt16 := go_tz 16.
 Definition tzcnt32 := go_tz 32.
 Definition tzcnt64 := go_tz 64.
+
+(* bits.OnesCountN (argument >= 0) *)
+Fixpoint pos_popcount (p : positive) : nat :=
+  match p with
+  | xH => 1%nat
+  | xO q => pos_popcount q
+  | xI q => S (pos_popcount q)
+  end.
+Definition go_popcount (x : Z) : Z :=
+  match x with Zpos p => Z.of_nat (pos_popcount p) | _ => 0 end.
+Definition popcnt8 := go_popcount.
+Definition popcnt16 := go_popcount.
+Definition popcnt32 := go_popcount.
+Definition popcnt64 := go_popcount.
+
+(* ------------------------------------------------------------------ slices of integers, loops *)
+
+(* s[i] for a slice modelled as a list; the translator guards the index (0 <= i < len) *)
+Definition go_nth (l : list Z) (i : Z) : Z := nth (Z.to_nat i) l 0.
+
+(* for cond { body }.  st: the variables the loop assigns.  body st next brk: the loop body in
+   continuation-passing style: next st' = end of the iteration (after the post statement;
+   also `continue`), brk st' = `break`; a `return` inside the body yields the function result
+   directly.  exit st: the statements after the loop.  diverge: fuel exhausted. *)
+Fixpoint go_loop {St R : Type} (fuel : nat) (cond : St -> bool)
+         (body : St -> (St -> R) -> (St -> R) -> R) (exit : St -> R) (diverge : R) (st : St) : R :=
+  match fuel with
+  | O => diverge
+  | S f => if cond st then body st (fun st' => go_loop f cond body exit diverge st') exit
+           else exit st
+  end.
 
 (* ================================================================== lemmas *)
 
